@@ -3,24 +3,31 @@
 //
 // Cases: 1-5 commands per call (bulk payloads with sizes around the read-buffer size, missing keys = nil replies,
 // WRONGTYPE = error replies, integers, simple strings); the reply of one command cut after k bytes followed by a
-// close of the connection, for every offset k; an io.Writer that fails after m bytes (with a partial write); a context
-// that is done before the call; a context that becomes done while the pooled connection is being set up (between
-// spool.Acquire and the check in DoStream).  After every call the pool's books (size, idle) are read through the verif
-// export, and a follow-up DoStream of a known key checks that a recycled connection is still in sync.
+// close of the connection, for every offset k and every reply index (final and non-final); an io.Writer that fails
+// after m bytes (with a partial write); a context that is done before the call; a context that becomes done while the
+// pooled connection is being set up (between spool.Acquire and the check in DoStream: one call, or two calls in a row,
+// the second forced onto a fresh connection by holding the first one's wire with an open stream); a context that ends
+// in the dial of the pooled connection (before / after the connection is made); a dial that fails.  The stream pool has
+// capacity 1 or 2.  After every call the pool's books (size, idle) are read through the verif export, and a follow-up
+// DoStream of a known key checks that the pool still hands out a connection and that a recycled one is in sync.
 //
 // Direct oracle: payloads written = the stored values; nil / error replies reported as errors, the next reply still
-// delivered; one WriteTo per command; afterwards the pool accounts for exactly the connections that are idle and
-// usable (a leaked or doubly stored wire shows as size != idle); a recycled connection answers the next call correctly.
-// Labels: site pipe.go:DoStream class ctx-done-wire-leak (DESIGN D7); site resp.go:streamTo class writer-failure-misaligned.
+// delivered; a failing writer gets exactly the prefix it accepted and the stream goes on with the next reply; one
+// WriteTo per command; afterwards the pool accounts for exactly the connections that are idle and usable (a leaked or
+// doubly stored wire shows as size != idle; with capacity 1 the follow-up call then gets no connection); a recycled
+// connection answers the next call correctly.
 package main
 
 import (
 	"bytes"
 	"context"
+	"crypto/tls"
 	"encoding/json"
 	"errors"
 	"fmt"
 	"io"
+	"net"
+	"os"
 	"strconv"
 	"strings"
 	"sync/atomic"
@@ -40,15 +47,16 @@ type Cmd struct {
 }
 
 type Case struct {
-	Buf     int    `json:"buf"` // ReadBufferEachConn
-	Cmds    []Cmd  `json:"cmds"`
-	CutCmd  int    `json:"cut_cmd,omitempty"`  // 1-based index of the command whose reply is cut (0 = none)
-	CutAt   int    `json:"cut_at,omitempty"`   // bytes of that reply that are sent
-	WrFail  int    `json:"wr_fail,omitempty"`  // >0: the io.Writer of command WrCmd fails after WrFail-1 bytes
-	WrCmd   int    `json:"wr_cmd,omitempty"`
-	Ctx     string `json:"ctx,omitempty"`      // "" | before | during
-	Repeat  int    `json:"repeat,omitempty"`   // ctx=during: number of calls (pool size is 2)
-	Warm    bool   `json:"warm,omitempty"`     // a successful call first (the wire comes from the idle list)
+	Buf    int    `json:"buf"` // ReadBufferEachConn
+	Cmds   []Cmd  `json:"cmds"`
+	CutCmd int    `json:"cut_cmd,omitempty"` // 1-based index of the command whose reply is cut (0 = none)
+	CutAt  int    `json:"cut_at,omitempty"`  // bytes of that reply that are sent
+	WrFail int    `json:"wr_fail,omitempty"` // >0: the io.Writer of command WrCmd fails after WrFail-1 bytes
+	WrCmd  int    `json:"wr_cmd,omitempty"`
+	Ctx    string `json:"ctx,omitempty"`    // "" | before | during | dial | dialed | dialfail
+	Repeat int    `json:"repeat,omitempty"` // ctx=during: number of calls, each on a fresh connection (pool size is 2)
+	Pool   int    `json:"pool,omitempty"`   // BlockingPoolSize (0 = 2)
+	Warm   bool   `json:"warm,omitempty"`   // a successful call first (the wire comes from the idle list)
 }
 
 func genCase(r *gen.Rand, i int) any {
@@ -66,6 +74,9 @@ func genCase(r *gen.Rand, i int) any {
 		c.Cmds = append(c.Cmds, cm)
 	}
 	c.Warm = r.Chance(1, 2)
+	if r.Chance(1, 2) {
+		c.Pool = 1 // a single slot: a wire that is not given back leaves the next call without a connection
+	}
 	switch x := r.Intn(40); {
 	case x < 16:
 		// cut the reply of one command at some offset: thorough coverage of the offsets comes from many cases
@@ -81,10 +92,14 @@ func genCase(r *gen.Rand, i int) any {
 		c.WrFail = 1 + r.Intn(2*c.Buf+10)
 	case x < 23:
 		c.Ctx = "before"
-	case x < 24:
+	case x < 26:
 		c.Ctx = "during"
-		c.Repeat = 2
+		c.Repeat = 1 + r.Intn(2)
 		c.Warm = false
+		c.Pool = 0
+	case x < 28:
+		c.Ctx = gen.Pick(r, []string{"dial", "dialed", "dialfail"})
+		c.Warm = false // the call has to dial
 	}
 	return c
 }
@@ -95,6 +110,7 @@ type failWriter struct {
 }
 
 var errWriter = errors.New("verif: writer failed")
+var errDial = errors.New("verif: dial failed")
 
 func (w *failWriter) Write(p []byte) (int, error) {
 	if w.limit < 0 || w.buf.Len()+len(p) <= w.limit {
@@ -120,6 +136,8 @@ func serrCoq(err error) string {
 		return "(Some EWriter)"
 	case err == context.Canceled || err == context.DeadlineExceeded:
 		return "(Some ECtxDone)"
+	case errors.Is(err, errDial):
+		return "(Some EPipe)" // p.Error() of the dead wire a failed dial leaves
 	}
 	if _, ok := rueidis.IsRedisErr(err); ok {
 		return "(Some ERedis)"
@@ -137,6 +155,12 @@ func payload(j, size int) string {
 
 func run(ci any) (res obs.Result) {
 	c := ci.(Case)
+	if len(c.Cmds) == 0 || c.Buf <= 0 {
+		// not a case of this observer (e.g. a corpus entry of the byte-level half)
+		res.Kind = "foreign"
+		res.Sig = "foreign"
+		return
+	}
 	res.Kind = "clean"
 	switch {
 	case c.CutCmd > 0:
@@ -171,9 +195,31 @@ func run(ci any) (res obs.Result) {
 		}
 		return fakeredis.Action{}
 	}
-	cl, err := rueidis.NewClient(rueidis.ClientOption{InitAddress: []string{"127.0.0.1:6379"}, DialCtxFn: s.Dial, ForceSingleClient: true,
+	var dialMode atomic.Value // "" | dial | dialed | dialfail: what the next dial does (once)
+	var dialCancel atomic.Value
+	dialMode.Store("")
+	dial := func(ctx context.Context, dst string, d *net.Dialer, t *tls.Config) (net.Conn, error) {
+		mode := dialMode.Swap("").(string)
+		cancel, _ := dialCancel.Load().(context.CancelFunc)
+		switch mode {
+		case "dial": // the context ends before the connection is made: the dial itself fails with ctx.Err()
+			cancel()
+		case "dialfail":
+			return nil, errDial
+		}
+		conn, err := s.Dial(ctx, dst, d, t)
+		if mode == "dialed" && cancel != nil { // … after it is made: the set-up commands fail with ctx.Err()
+			cancel()
+		}
+		return conn, err
+	}
+	poolSize := c.Pool
+	if poolSize == 0 {
+		poolSize = 2
+	}
+	cl, err := rueidis.NewClient(rueidis.ClientOption{InitAddress: []string{"127.0.0.1:6379"}, DialCtxFn: dial, ForceSingleClient: true,
 		DisableRetry: true, DisableCache: true, PipelineMultiplex: -1, ReadBufferEachConn: c.Buf, WriteBufferEachConn: 4096, RingScaleEachConn: 6,
-		BlockingPoolSize: 2, ConnWriteTimeout: 1200 * time.Millisecond})
+		BlockingPoolSize: poolSize, ConnWriteTimeout: psx.Patience()})
 	if err != nil {
 		res.Oracle = "harness: " + err.Error()
 		return
@@ -214,14 +260,23 @@ func run(ci any) (res obs.Result) {
 	}
 	probe := func() string {
 		// a follow-up call on (possibly) the recycled connection
-		pctx, cancel := context.WithTimeout(ctx, 2500*time.Millisecond)
+		// (the bounds only matter when something is broken — a pool without a free slot, a reply that never comes —: they
+		// are generous and adaptive, see psx.Patience)
+		pctx, cancel := context.WithTimeout(ctx, psx.Patience())
 		defer cancel()
 		st := cl.DoStream(pctx, cl.B().Get().Key("s:probe").Build())
 		var b bytes.Buffer
 		for st.HasNext() {
 			if _, err := st.WriteTo(&b); err != nil {
+				if pctx.Err() != nil || os.IsTimeout(err) {
+					psx.Expired()
+				}
 				return "error: " + err.Error()
 			}
+		}
+		if b.Len() == 0 && pctx.Err() != nil {
+			psx.Expired()
+			return "error: " + pctx.Err().Error()
 		}
 		return b.String()
 	}
@@ -247,40 +302,99 @@ func run(ci any) (res obs.Result) {
 	res.Site = "pipe.go:DoStream"
 	// ---- the context scenarios ----
 	if c.Ctx == "during" {
-		// every call gets a fresh pool connection whose setup ends the context: DoStream returns ctx.Err() …
+		// every call gets a fresh pool connection whose set-up ends the context: DoStream returns ctx.Err() and must have
+		// given the wire back.  The wires the earlier calls put back are held by open streams meanwhile, so that each call
+		// really has to set up a connection.
+		drainProbe := func(st rueidis.RedisResultStream) string {
+			var b bytes.Buffer
+			for st.HasNext() {
+				if _, err := st.WriteTo(&b); err != nil {
+					return "error: " + err.Error()
+				}
+			}
+			if b.Len() == 0 && st.Error() != nil && st.Error() != io.EOF {
+				if st.Error() == context.DeadlineExceeded {
+					psx.Expired()
+				}
+				return "error: " + st.Error().Error()
+			}
+			return b.String()
+		}
 		for k := 0; k < c.Repeat; k++ {
-			cctx, cancel := context.WithCancel(ctx)
+			var holders []rueidis.RedisResultStream
+			var hcancels []context.CancelFunc
+			for h := 0; h < k; h++ {
+				hctx, hcancel := context.WithTimeout(ctx, psx.Patience())
+				hcancels = append(hcancels, hcancel)
+				holders = append(holders, cl.DoStream(hctx, cl.B().Get().Key("s:probe").Build()))
+			}
+			tctx, tcancel := context.WithTimeout(ctx, psx.Patience()) // a pool without a free slot must not hang the observer
+			cctx, cancel := context.WithCancel(tctx)
 			cancelDuring.Store(cancel)
 			st := cl.DoStream(cctx, build(0))
 			cancelDuring.Store(context.CancelFunc(nil))
-			if st.Error() == nil {
-				fail("harness", "the context was not done at the check (call %d)", k)
+			switch err := st.Error(); {
+			case err == nil:
+				// the call was served by a connection that was already set up
+				got := drainProbe(st)
+				fail("ctx-done-wire-leak", "call %d did not have to set up a connection although the %d idle wires were held (it returned %q): the pool's books are off", k+1, k, got)
+			case err != context.Canceled:
+				if err == context.DeadlineExceeded {
+					psx.Expired()
+				}
+				fail("ctx-done-wire-leak", "call %d: the context was cancelled while the pooled connection was being set up, the stream reports %v", k+1, err)
+			case st.HasNext():
+				fail("ctx-done-wire-leak", "call %d: an error stream has a next reply", k+1)
 			}
 			cancel()
+			tcancel()
+			if sz, idle := stats(); sz != k+1 || idle != 1 {
+				fail("ctx-done-wire-leak", "after call %d (context ended during the set-up of its connection; %d other wires held by open streams) the pool accounts for %d wires with %d idle, expected %d and 1: the acquired wire was not stored exactly once", k+1, k, sz, idle, k+1)
+			}
+			for i, h := range holders {
+				if got := drainProbe(h); got != "probe-value" {
+					fail("recycled-out-of-sync", "the stream holding the wire of call %d returned %q", i+1, got)
+				}
+				hcancels[i]()
+			}
 		}
 		sz, idle := stats()
-		// … and the pool must still be able to serve: with BlockingPoolSize 2 a third call must not hang
+		if sz != c.Repeat || idle != c.Repeat {
+			fail("ctx-done-wire-leak", "after %d such calls the pool (BlockingPoolSize 2) accounts for %d wires with %d idle, expected %d and %d", c.Repeat, sz, idle, c.Repeat, c.Repeat)
+		}
+		// … and the pool must still be able to serve
 		got := probe()
+		if got != "probe-value" {
+			fail("ctx-done-wire-leak", "the next call returned %q", got)
+		}
 		res.Obs = map[string]any{"size": sz, "idle": idle, "next_call": got}
 		res.Sig = fmt.Sprintf("%+v", c)
 		res.Nontrivial = true
-		if got != "probe-value" || sz != idle {
-			res.Oracle = fmt.Sprintf("after %d DoStream calls whose context ended while the pooled connection was being set up, the pool (BlockingPoolSize 2) accounts for %d wires with %d idle; the next call returned %q — the acquired wire is never stored (early return on ctx.Err())", c.Repeat, sz, idle, got)
-			res.Class = "ctx-done-wire-leak"
+		if len(problems) > 0 {
+			res.Oracle = strings.Join(problems, "; ")
+			res.Class = class
 		}
 		// model: one such call on a counted wire
-		res.Coq = obs.App("CStream", obs.App("mkCall", obs.Nat(1), "true", "true", "0", "true"), "[]", "[]", obs.Nat(1), obs.Nat(0), "(Some ECtxDone)")
-		if c.Repeat != 1 {
-			res.Coq = "" // the books above are those of several calls
+		if c.Repeat == 1 {
+			res.Coq = obs.App("CStream", obs.App("mkCall", obs.Nat(1), "true", "true", "0", "true"), "[]", "[]", obs.Nat(sz), obs.Nat(idle), "(Some ECtxDone)")
 		}
 		return
 	}
 	var cctx = ctx
-	if c.Ctx == "before" {
+	switch c.Ctx {
+	case "before":
 		cc, cancel := context.WithCancel(ctx)
 		cancel()
 		cctx = cc
+	case "dial", "dialed", "dialfail":
+		// the pool is empty: spool.Acquire counts a slot and dials; the dial ends the context (or fails)
+		cc, cancel := context.WithCancel(ctx)
+		defer cancel()
+		cctx = cc
+		dialCancel.Store(cancel)
+		dialMode.Store(c.Ctx)
 	}
+	noCall := c.Ctx != "" // the call cannot send anything: an error stream, no WriteTo
 	if c.CutCmd > 0 {
 		// ordinal of the reply to cut among the s:-commands seen on the pool connection (the warm-up counts)
 		target.Store(int64(nwarm + c.CutCmd))
@@ -316,6 +430,9 @@ func run(ci any) (res obs.Result) {
 	}
 	finalErr := st.Error()
 	target.Store(-1)
+	if leftover := dialMode.Swap("").(string); leftover != "" {
+		fail("pool-books", "the call on an empty stream pool did not dial (scenario %s)", leftover)
+	}
 	// extra WriteTo after the end must not touch anything
 	if n, _ := st.WriteTo(io.Discard); n != 0 {
 		fail("write-after-end", "WriteTo after the end wrote %d bytes", n)
@@ -339,20 +456,12 @@ func run(ci any) (res obs.Result) {
 	}
 	cutIdx := c.CutCmd - 1 // -1: none
 	cutComplete := cutIdx >= 0 && c.CutAt >= replyLen(cutIdx)
-	wrTag := func(cls string) string {
-		if c.WrFail > 0 {
-			return "writer-failure-misaligned" // everything that goes wrong after a failed Write is streamTo's over-discard
-		}
-		return cls
-	}
-	if c.WrFail > 0 {
-		res.Site = "resp.go:streamTo"
-	}
+	wrTag := func(cls string) string { return cls }
 	replies := []string{}
 	wantWrites := 0
 	broken := false // the reply stream ended (cut) before this command
 	for j, cm := range c.Cmds {
-		if c.Ctx == "before" || broken {
+		if noCall || broken {
 			break
 		}
 		wantWrites++
@@ -390,12 +499,13 @@ func run(ci any) (res obs.Result) {
 			if _, ok := rueidis.IsRedisErr(o.err); !ok || o.n != 0 || rueidis.IsRedisNil(o.err) {
 				fail(wrTag("nil-err"), "command %d: an error reply was reported as (%d, %v)", j, o.n, o.err)
 			}
-		case wr && o.err != nil:
-			// streamTo declares the reply consumed unless its over-long Discard ran into the end of the data (then the
-			// stream ends here with the writer's error)
-			replies = append(replies, obs.App("mkSres", obs.N(uint64(o.n)), "(Some EWriter)", obs.Bool(finalErr != errWriter)))
-			if o.err != errWriter {
-				fail("writer-error", "command %d: the writer failed but WriteTo returned %v", j, o.err)
+		case wr && c.WrFail-1 < len(vals[j]):
+			// the writer accepts WrFail-1 bytes and fails: it got exactly that prefix, WriteTo returns its error, the rest
+			// of the reply is taken off the connection (clean) and the stream goes on with the next reply
+			lim := c.WrFail - 1
+			replies = append(replies, obs.App("mkSres", obs.N(uint64(o.n)), "(Some EWriter)", "true"))
+			if o.err != errWriter || o.got != vals[j][:lim] || o.n != int64(lim) {
+				fail("writer-error", "command %d (%s, %d bytes): the writer failed after %d bytes; WriteTo returned (%d, %v) and the writer holds %d bytes, a prefix of the value: %v", j, cm.K, len(vals[j]), lim, o.n, o.err, len(o.got), strings.HasPrefix(vals[j], o.got))
 			}
 		default:
 			replies = append(replies, obs.App("mkSres", obs.N(uint64(o.n)), obs.None, "true"))
@@ -409,13 +519,27 @@ func run(ci any) (res obs.Result) {
 	}
 	if sz != idle {
 		cls := "pool-books"
-		if c.Ctx == "before" {
+		if noCall {
 			cls = "ctx-done-wire-leak"
 		}
 		fail(wrTag(cls), "after the call the stream pool accounts for %d wires but %d are idle (a wire was not stored, or stored twice)", sz, idle)
 	}
-	if c.Ctx == "" && !broken && c.WrFail == 0 && (sz != 1 || idle != 1) {
+	if c.Ctx == "" && !broken && (sz != 1 || idle != 1) {
 		fail("pool-books", "a cleanly consumed stream left the pool with size %d, idle %d", sz, idle)
+	}
+	if noCall {
+		// nothing was sent: the pool is as before the call (the dead wire of a failed dial gave its slot back, the dead
+		// pipe made up for a done context never had one)
+		if sz != nwarm || idle != nwarm {
+			fail("ctx-done-wire-leak", "the call could not send anything (scenario %s) and left the pool with size %d, idle %d; before the call it had %d, %d", c.Ctx, sz, idle, nwarm, nwarm)
+		}
+		wantErr := context.Canceled
+		if c.Ctx == "dialfail" {
+			wantErr = errDial
+		}
+		if !errors.Is(finalErr, wantErr) {
+			fail("ctx-error", "scenario %s: the stream reports %v, expected %v", c.Ctx, finalErr, wantErr)
+		}
 	}
 	if broken && idle != 0 {
 		fail("unclean-recycled", "a reply was not consumed completely but the connection went back to the idle list")
@@ -427,10 +551,16 @@ func run(ci any) (res obs.Result) {
 		got = probe()
 	}
 	if got != "probe-value" {
-		fail(wrTag("recycled-out-of-sync"), "the call after this one returned %q instead of the stored value: the connection was recycled out of sync with the reply stream", got)
+		fail(wrTag("recycled-out-of-sync"), "the call after this one returned %q instead of the stored value (stream pool of %d): the pool has no connection left for it, or the connection was recycled out of sync with the reply stream", got, poolSize)
 	}
 	// ---- the model case ----
-	callT := obs.App("mkCall", obs.Nat(len(c.Cmds)), obs.Bool(c.Ctx == "before"), obs.Bool(c.Ctx != "before"), "0", "true")
+	// ctx done at the check in DoStream; a counted wire (not the dead pipe Acquire makes up for a done context); p.state
+	// (3 for both kinds of dead pipe)
+	wireState := "0"
+	if noCall {
+		wireState = "3"
+	}
+	callT := obs.App("mkCall", obs.Nat(len(c.Cmds)), obs.Bool(noCall && c.Ctx != "dialfail"), obs.Bool(c.Ctx != "before"), wireState, "true")
 	outsT := obs.ListOf(outs, func(o out) string { return "(" + obs.N(uint64(o.n)) + ", " + serrCoq(o.err) + ")" })
 	// the books of this call alone (the warm-up wire is the one reused)
 	res.Coq = obs.App("CStream", callT, obs.List(replies), outsT, obs.Nat(sz), obs.Nat(idle), serrCoq(finalErr))
@@ -443,11 +573,7 @@ func run(ci any) (res obs.Result) {
 	if len(problems) > 0 {
 		res.Oracle = strings.Join(problems, "; ")
 		res.Class = class
-		if class == "writer-failure-misaligned" {
-			res.Coq = "" // the replies after the over-discard are garbage: nothing for the model to predict
-		}
 	}
-	_ = psx.Itoa
 	return
 }
 
